@@ -68,7 +68,7 @@ def run(ctx, factor):
         if mr[0] != "unsup" and (mr[0] != b[0] or (b[0] == "ok" and mr[1] != b[1])):
             rep.disagree("T1-regex-text(macro rule)", case, b, mr)
         rep.case(case, a[0] == "ok", tags=["form:" + f for f in set(forms)] + ["files=%d" % len(files)])
-        if rep.violations and factor > 1:
+        if rep.has_new() and factor > 1:
             return
 
 
